@@ -39,7 +39,15 @@ OverFiltered == { [op |-> "overlay", srcs |-> << Wrap(f1, Leaf(1)), Wrap(f2, Lea
 Programs == Chains1 \cup (IF MaxChain >= 2 THEN Chains2 ELSE {}) \cup OverFiltered
 
 \* invalid filter_bbox arguments (raw VPL value text): reversed, out of range, wrong arity, not numbers
-InvalidRaw == { "[10,10,-10,-10]", "[-200,0,10,10]", "[0,-100,10,10]", "[0,0,10]", "[0,0,10,10,20]", "[a,b,c,d]", "[0,0,190,10]", "[0,0,10,95]" }
+\* ... and systematically: every array of 0..5 entries over {0, 20, x} that is NOT four numbers with west <= east and
+\* south <= north (wrong arity with and without non-numbers, non-numbers in every position, reversed boxes)
+Elems == {"0", "20", "x"}
+NumOf(e) == IF e = "0" THEN 0 ELSE IF e = "20" THEN 20 ELSE -1
+RECURSIVE Join(_, _)
+Join(sq, i) == IF i > Len(sq) THEN "" ELSE (IF i > 1 THEN "," ELSE "") \o sq[i] \o Join(sq, i + 1)
+ValidSeq(sq) == Len(sq) = 4 /\ (\A i \in 1..4 : NumOf(sq[i]) >= 0) /\ NumOf(sq[1]) <= NumOf(sq[3]) /\ NumOf(sq[2]) <= NumOf(sq[4])
+InvalidGen == { "[" \o Join(sq, 1) \o "]" : sq \in { q \in UNION { [1..n -> Elems] : n \in 0..5 } : ~ValidSeq(q) } }
+InvalidRaw == InvalidGen \cup { "[10,10,-10,-10]", "[-200,0,10,10]", "[0,-100,10,10]", "[0,0,10]", "[0,0,10,10,20]", "[a,b,c,d]", "[0,0,190,10]", "[0,0,10,95]" }
 
 SourceSets == {
     << [tiles |-> << <<0,0,0,101>>, <<1,0,0,102>>, <<1,1,1,103>>, <<2,1,1,104>>, <<2,2,1,105>>, <<2,3,3,106>>, <<3,0,7,107>>, <<3,4,3,108>> >>, tc |-> "none"],
